@@ -225,7 +225,7 @@ func (m *coreMon) check(op string, res string, cur *coreSnap) {
 			if f[0] != "end" {
 				m.violate("C02/timing/finalized-outside-end-block", fmt.Sprintf("r%d state %d finalized by %s", ri, i+1, f[0]))
 			}
-			if uint64(cur.H) < st.CH+p.Dispute {
+			if p.Dispute > uint64(cur.H) || uint64(cur.H)-p.Dispute < st.CH { // (overflow-safe: H < CH + dispute)
 				m.violate("C02/timing/finalized-early", fmt.Sprintf("r%d state %d created %d finalized at %d, dispute %d", ri, i+1, st.CH, cur.H, p.Dispute))
 			}
 		}
@@ -244,7 +244,7 @@ func (m *coreMon) check(op string, res string, cur *coreSnap) {
 			}
 			for i, st := range r.States {
 				ix := uint64(i + 1)
-				due := st.CH+p.Dispute <= uint64(cur.H) && uint64(cur.H) >= p.Dispute
+				due := uint64(cur.H) >= p.Dispute && st.CH <= uint64(cur.H)-p.Dispute // (overflow-safe: CH + dispute <= H)
 				if due && !st.Final && (minFail == 0 || ix < minFail) {
 					m.violate("C02/complete/elapsed-state-not-finalized", fmt.Sprintf("r%d state %d created %d hub %d dispute %d fail=%s", ri, ix, st.CH, cur.H, p.Dispute, kv["fail"]))
 				}
@@ -526,6 +526,9 @@ func coreGenParams(g *Rng, focus string) coreParams {
 		Kick:       []uint64{1, 2, 4}[g.Intn(3)],
 		NoticeNs:   []int64{1000000000, 5000000000, 12000000000}[g.Intn(3)],
 		NActors:    8, NRollapps: 2 + g.Intn(2), MinBond: []uint64{10, 100}[g.Intn(2)],
+	}
+	if g.Chance(7) { // periods beyond int64: valid (validation only demands >= the minimum), nothing ever finalizes
+		p.Dispute = []uint64{1 << 63, 1<<63 + 7, 1<<64 - 2, 1<<64 - 1}[g.Intn(4)]
 	}
 	if (focus == "C08" || focus == "C11") && g.Chance(50) {
 		p.LsBlocks, p.LsInterval = uint64(1+g.Intn(3)), uint64(1+g.Intn(2))
